@@ -116,54 +116,109 @@ def run(ctx):
                    close.cfg.node_dominates(prev, cur))
         prev = cur
 
-    # ---- open paths: validation gates parsing
+    # ---- open paths: validation gates parsing (abstract execution over file sizes x magic outcomes x
+    # footer lengths; the byte comparisons and the length read are hooked, contents stay unknown)
+    from ..rules import sem
+    ro = sem.field_offsets(P, "carquet_reader")
     gates = 0
-    for fname, file_ in (("read_footer", FR), ("read_footer_mmap", FR), ("carquet_reader_open_buffer", MR)):
+    for fname, file_, kind in (("read_footer", FR, "stream"), ("read_footer_mmap", FR, "mapped"),
+                               ("carquet_reader_open_buffer", MR, "buffer")):
         f = P.fn(fname, file_)
-        parse = f.calls("parquet_parse_file_metadata")
-        if len(parse) != 1:
-            raise AnalysisBroken("%s: expected one parquet_parse_file_metadata call" % fname)
-        cz = Canon(f)
-        g_size = g_magic = g_foot = None
-        for n_ in f.body.walk():
-            if n_.k != "IfStmt":
-                continue
-            kids = [x for x in n_.c if x is not None]
-            cond, then = kids[0], kids[1]
-            errs = [r for r in then.walk() if r.k == "ReturnStmt" and r.c and r.c[0] is not None
-                    and r.c[0].cv != 0 or (r.k == "ReturnStmt" and f.ret != "carquet_status_t" and r.c and r.c[0].cv == 0)]
-            if not errs:
-                continue
-            t = _nocast(cz(cond))
-            if t[0] == "bin" and t[1] == "<" and t[3] == ("int", 12):
-                g_size = n_
-            elif t[0] == "bin" and t[1] == "!=" and any(
-                    s[0] == "call" and s[1] == ("func", "memcmp") for s in subtrees(t)):
-                # trailing magic: one operand is (end - 4) or (tail + 4)
-                txt = show(t)
-                if "- 4" in txt or "4 +" in txt or "+ 4" in txt:
-                    g_magic = n_
-            elif t[0] == "bin" and t[1] == "<" and any(
-                    s[0] == "call" and s[1][1].startswith("carquet_read_u32") for s in subtrees(t[3])) \
-                    and any(s == ("int", 8) for s in subtrees(t[2])):
-                g_foot = n_
-        for name, g, what in (("min-size", g_size, "file shorter than 12 bytes is rejected"),
-                              ("trailing-magic", g_magic, "trailing PAR1 is compared"),
-                              ("footer-length", g_foot, "footer_size > file_size - 8 is rejected")):
-            gates += 1
-            key = "open-gate|%s:%s|%s" % (file_, fname, name)
-            if g is None:
-                ctx.bad("R6.dominate", key, P.where(f.body), "%s: %s before the footer is parsed" % (fname, what),
-                        "no such guard with an error exit found")
-                continue
-            first = _first_cfg(f, g)
-            ctx.ob("R6.dominate", key, P.where(g), "%s: %s before the footer is parsed" % (fname, what),
-                   first is not None and f.cfg.node_dominates(first, parse[0]))
+        bad = None
+        unparsed_valid = None
+        oob = None
+        scen = 0
+        try:
+            for S in list(range(0, 17)) + [20, 100]:
+                for head_ok in (True, False):
+                    for tail_ok in (True, False):
+                        for FL in sorted(set(x for x in (0, 1, S - 12, S - 9, S - 8, S - 7, S, 0xFFFFFFFF) if x >= 0)):
+                            scen += 1
+                            state = {"seek": None}
+
+                            def h_memcmp(ev, a, it, S=S, head_ok=head_ok, tail_ok=tail_ok):
+                                p0 = a[0] if isinstance(a[0], sem.Ptr) and a[0].base == "file" else (
+                                    a[1] if isinstance(a[1], sem.Ptr) and a[1].base == "file" else None)
+                                if p0 is not None:
+                                    if not isinstance(p0.off, int) or p0.off < 0 or p0.off + 4 > S:
+                                        ev.append(("oob", p0.off))
+                                        return sem.U
+                                    if p0.off == 0:
+                                        return 0 if head_ok else 1
+                                    if p0.off == S - 4:
+                                        return 0 if tail_ok else 1
+                                    return sem.U
+                                return 0 if tail_ok else 1       # stream variant: the 8 tail bytes were read into a local
+
+                            def h_u32(ev, a, it, S=S, FL=FL):
+                                p0 = a[0]
+                                if isinstance(p0, sem.Ptr) and p0.base == "file":
+                                    if not isinstance(p0.off, int) or p0.off < 0 or p0.off + 4 > S:
+                                        ev.append(("oob", p0.off))
+                                        return sem.U
+                                    if p0.off != S - 8:
+                                        ev.append(("len-at", p0.off))
+                                return FL
+
+                            def h_parse(ev, a, it):
+                                ev.append(("parse", a[0].off if isinstance(a[0], sem.Ptr) else a[0],
+                                           a[0].base if isinstance(a[0], sem.Ptr) else None, a[1]))
+                                return 0
+                            hooks = {"memcmp": h_memcmp, "carquet_read_u32_le": h_u32, "parquet_parse_file_metadata": h_parse,
+                                     "build_schema": lambda ev, a, it: sem.Ptr("schema", 0, 1),
+                                     "carquet_error_set": lambda ev, a, it: 0,
+                                     "calloc": lambda ev, a, it: sem.Ptr("reader", 0, 1),
+                                     "malloc": lambda ev, a, it: sem.Ptr("footer", 0, 1),
+                                     "free": lambda ev, a, it: 0, "carquet_arena_init": lambda ev, a, it: 0,
+                                     "carquet_arena_destroy": lambda ev, a, it: 0,
+                                     "carquet_reader_options_init": lambda ev, a, it: 0,
+                                     "fseek": lambda ev, a, it: ev.append(("seek", a[1], a[2])) or 0,
+                                     "ftell": lambda ev, a, it, S=S: S,
+                                     "fread": lambda ev, a, it: (a[1] * a[2]) if isinstance(a[1], int) and isinstance(a[2], int) else sem.U}
+                            if kind == "buffer":
+                                args = [sem.Ptr("file", 0, 1), S, 0, sem.Ptr("err", 0, 1)]
+                                heap0 = {}
+                            else:
+                                args = [sem.Ptr("reader", 0, 1), sem.Ptr("err", 0, 1)]
+                                heap0 = {("reader", ro["mmap_data"]): sem.Ptr("file", 0, 1), ("reader", ro["file_size"]): S,
+                                         ("reader", ro["file"]): sem.Ptr("FILE", 0, 1)}
+                            paths = sem.run(P, f, args, heap0=heap0, hooks=hooks, single=False, max_forks=64)
+                            valid_min = S >= 12 and tail_ok and FL <= S - 8
+                            for ret, ev, heap in paths:
+                                parsed = [e for e in ev if e[0] == "parse"]
+                                if [e for e in ev if e[0] in ("oob", "len-at")] and oob is None:
+                                    oob = "size %d: reads the file at offset %s" % (S, [e for e in ev if e[0] in ("oob", "len-at")][0][1])
+                                if parsed and not valid_min and bad is None:
+                                    bad = "size %d, trailing magic %s, footer length %d: the footer is parsed" % (
+                                        S, "ok" if tail_ok else "wrong", FL)
+                                if parsed and valid_min:
+                                    off, base, ln = parsed[0][1], parsed[0][2], parsed[0][3]
+                                    where_ok = (base == "file" and off == S - 8 - FL) or (
+                                        base == "footer" and ("seek", S - 8 - FL, 0) in ev)
+                                    if (ln != FL or not where_ok) and bad is None:
+                                        bad = "size %d, footer length %d: parses %s bytes at %s+%s" % (S, FL, ln, base, off)
+                            if valid_min and head_ok and not any(any(e[0] == "parse" for e in ev) for ret, ev, heap in paths) \
+                                    and unparsed_valid is None:
+                                unparsed_valid = "size %d, both magics ok, footer length %d: never parsed" % (S, FL)
+        except sem.Inconclusive as ex:
+            ctx.inconclusive("R6.dominate", "open-gate|%s:%s" % (file_, fname), P.where(f.body), "abstract execution", str(ex))
+            continue
+        gates += 3
+        ctx.ob("R6.dominate", "open-gate|%s:%s|validated" % (file_, fname), P.where(f.body),
+               "%s parses a footer only when the file has >= 12 bytes, the trailing magic matched and footer_size <= "
+               "file_size - 8, and then exactly the footer_size bytes before the tail (%d scenarios)" % (fname, scen),
+               bad is None, bad or "")
+        ctx.ob("R6.dominate", "open-gate|%s:%s|in-bounds" % (file_, fname), P.where(f.body),
+               "%s reads magic and footer length only inside the file (length at size-8)" % fname, oob is None, oob or "")
+        ctx.ob("R6.dominate", "open-gate|%s:%s|accepts-valid" % (file_, fname), P.where(f.body),
+               "%s reaches the footer parser for every well-formed envelope" % fname, unparsed_valid is None, unparsed_valid or "")
         # is_open / success only after status and schema tests
+        parse = f.calls("parquet_parse_file_metadata")
         bs = f.calls("build_schema")
-        ctx.ob("R6.dominate", "open-schema|%s:%s" % (file_, fname), P.where(f.body),
-               "%s: build_schema runs only after the parse status was tested" % fname,
-               len(bs) == 1 and f.cfg.node_dominates(parse[0], bs[0]) and _status_tested_between(f, parse[0], bs[0]))
+        if len(parse) == 1 and len(bs) == 1:
+            ctx.ob("R6.dominate", "open-schema|%s:%s" % (file_, fname), P.where(f.body),
+                   "%s: build_schema runs only after the parse status was tested" % fname,
+                   f.cfg.node_dominates(parse[0], bs[0]) and _status_tested_between(f, parse[0], bs[0]))
     ctx.floor("C18 open gates", gates, 9)
 
     # ---- abort
